@@ -4,13 +4,13 @@ package main
 // C23 (statistics), C24 (pruning): query schedules over real layouts with an auditing DataStore.
 
 import (
-	"strconv"
 	"context"
 	"errors"
 	"fmt"
 	"iter"
 	"runtime"
 	"sort"
+	"strconv"
 	"strings"
 	"sync"
 	"time"
@@ -302,6 +302,7 @@ func runQuerySide(c *ctx, which string) {
 		}
 		if which == "C21" {
 			poolDiff(c, r, h)
+			poolManyHandles(c, h)
 		}
 		if which == "C22" {
 			concurrencyRuns(c, r, h, p)
@@ -703,6 +704,73 @@ func poolDiff(c *ctx, r Rng, h *History) {
 		if m := h.Env.Data.Misuses(); len(m) > 0 {
 			c.r.Add(Finding{Kind: "violation", Check: "pool-misuse", Detail: "double close / use after close inside the pool: " + m[0], Replay: map[string]any{"ops": mt.String()}})
 			h.Env.Data.ResetLog()
+		}
+	}
+}
+
+// poolManyHandles: directed sequences for the handle pool - many handles of ONE file lent at once and all
+// handed back healthy (9, 12, 40: beyond any small idle cap), with and without read handles whose Close
+// reports an error after releasing; then whole queries over such a store. Every handle opened must be closed
+// exactly once by the time closeAll / the query returns.
+func poolManyHandles(c *ctx, h *History) {
+	files, _ := AllFiles(h.Env.Meta)
+	if len(files) == 0 {
+		return
+	}
+	type rsc = interface {
+		Read([]byte) (int, error)
+		Seek(int64, int) (int64, error)
+		Close() error
+	}
+	defer func() { h.Env.Data.CloseErrEvery = 0 }()
+	for _, closeErr := range []int64{0, 2, 1} {
+		for _, k := range []int{9, 12, 40} {
+			h.Env.Data.CloseErrEvery = closeErr
+			h.Env.Data.ResetLog()
+			pool := bs.VerifNewHandlePool(h.Env.Data)
+			ptr := files[0].PointerBytes
+			pool.Retain(ptr)
+			var held []rsc
+			for i := 0; i < k; i++ {
+				hd, err := pool.Acquire(context.Background(), ptr)
+				if err != nil {
+					break
+				}
+				held = append(held, hd.(rsc))
+			}
+			opened := h.Env.Data.OpenHandles()
+			for _, hd := range held {
+				pool.Put(ptr, hd)
+			}
+			pool.Release(ptr)
+			pool.CloseAll()
+			replay := map[string]any{"handles_of_one_file_lent_at_once": k, "every_nth_close_reports_error": closeErr, "opened": opened}
+			c.r.Case(true, fmt.Sprint("pool-many", k, closeErr))
+			c.r.Hit("pool.many-handles")
+			if n := h.Env.Data.OpenHandles(); n != 0 {
+				c.r.Add(Finding{Kind: "violation", Check: "pool-handles-left-open", Detail: fmt.Sprintf("%d of %d handles of one file are still open after all were handed back, the file was released and closeAll ran (every %d-th Close reports an error)", n, opened, closeErr), Replay: replay})
+				for h.Env.Data.OpenHandles() > 0 {
+					h.Env.Data.openHandles.Add(-1)
+				}
+			}
+			if m := h.Env.Data.Misuses(); len(m) > 0 {
+				c.r.Add(Finding{Kind: "violation", Check: "pool-misuse", Detail: "double close / use after close inside the pool: " + m[0], Replay: replay})
+				h.Env.Data.ResetLog()
+			}
+		}
+	}
+	// whole queries over a store whose handles report errors from Close
+	for _, closeErr := range []int64{1, 2, 3} {
+		h.Env.Data.CloseErrEvery = closeErr
+		h.Env.Data.ResetLog()
+		out := h.Env.Query(&bs.Query{})
+		c.r.Case(true, fmt.Sprint("query-close-errors", closeErr))
+		c.r.Hit("pool.query-close-errors")
+		if n := h.Env.Data.OpenHandles(); n != 0 {
+			c.r.Add(Finding{Kind: "violation", Check: "handles-left-open", Detail: fmt.Sprintf("%d DataStore handles are still open after the query's Next returned false (every %d-th Close reports an error after releasing; query err %v)", n, closeErr, out.Err), Replay: map[string]any{"ops": h.Ops, "every_nth_close_reports_error": closeErr}})
+			for h.Env.Data.OpenHandles() > 0 {
+				h.Env.Data.openHandles.Add(-1)
+			}
 		}
 	}
 }
